@@ -6,7 +6,7 @@ C13 — executable model of `Image.crop` / `constrain_points_to_bounds`,
 The model follows the code branch for branch.  Two places where the code on the original tree
 departs from the property are kept as an explicit `Variant` (`coded` = what the original tree
 does, `repaired` = the proposed fix) so that the refutation of the coded behaviour and the
-theorem for the repaired behaviour stand side by side (Props/C13.lean):
+theorem for the repaired behaviour stand side by side (Lemmas/C13Base.lean, Props/C13.lean):
   * the raise-or-clip decision of `Image.crop`  (`or` where `and` is meant),
   * the literal channel count `3` in the reshape of `extract_patches_by_sampling`.
 `scipy.ndimage.map_coordinates` is library code: the sampling-path model takes the sampler as
@@ -19,7 +19,7 @@ import MenpoModel.Core.PyData
 namespace MenpoModel.C13
 open MenpoModel.PyData
 
-inductive Err | boundary | value | index
+inductive Err | boundary | value | index | zerodiv
 deriving Repr, DecidableEq
 
 inductive Variant | coded | repaired
@@ -122,6 +122,13 @@ def roundHalfEven (x : Rat) : Int :=
 
 /-- python `int(x)` on a float: truncation toward zero -/
 def truncZ (x : Rat) : Int := if 0 ≤ x then x.floor else x.ceil
+
+/-- the pixel `set_patches` centres a patch on: `int(p)` as coded; `np.round(p)` (what extraction
+does) in the repaired variant of notes/fixes/C13-set-patches-rounding.diff -/
+def placeZ (v : Variant) (x : Rat) : Int :=
+  match v with
+  | .coded => truncZ x
+  | .repaired => roundHalfEven x
 
 /-- `(patch_shape % 2) / 2` -/
 def halfPixel (ph : Nat) : Rat := ((ph % 2 : Nat) : Rat) / 2
@@ -253,7 +260,7 @@ def setElem {α : Type} (patches cur : NDArr α) (i oi C' ph pw : Nat) (rs cs : 
   | _ => dflt
 
 /-- one iteration of the loop of `set_patches`: write patch `i` around `ctr` -/
-def setOne {α : Type} (patches : NDArr α) (cur : NDArr α) (i : Nat) (ctr : Pt) (offset : Int × Int)
+def setOne {α : Type} (v : Variant) (patches : NDArr α) (cur : NDArr α) (i : Nat) (ctr : Pt) (offset : Int × Int)
     (oi : Nat) (dflt : α) : Except Err (NDArr α) :=
   match patches.shape, cur.shape with
   | [_, k, C', ph, pw], [C, H, W] =>
@@ -262,8 +269,8 @@ def setOne {α : Type} (patches : NDArr α) (cur : NDArr α) (i : Nat) (ctr : Pt
     let lc := pw / 2
     let hr := lr + ph % 2
     let hc := lc + pw % 2
-    let pr := truncZ (ctr.1 + (offset.1 : Rat))
-    let pc := truncZ (ctr.2 + (offset.2 : Rat))
+    let pr := placeZ v (ctr.1 + (offset.1 : Rat))
+    let pc := placeZ v (ctr.2 + (offset.2 : Rat))
     let rs := pySliceN H (pr - (lr : Int)) (pr + (hr : Int))
     let cs := pySliceN W (pc - (lc : Int)) (pc + (hc : Int))
     let okC := C' == C || C' == 1
@@ -273,20 +280,20 @@ def setOne {α : Type} (patches : NDArr α) (cur : NDArr α) (i : Nat) (ctr : Pt
     else .error .value
   | _, _ => .error .value
 
-def setLoop {α : Type} (patches : NDArr α) (offset : Int × Int) (oi : Nat) (dflt : α) :
+def setLoop {α : Type} (v : Variant) (patches : NDArr α) (offset : Int × Int) (oi : Nat) (dflt : α) :
     List (Nat × Pt) → NDArr α → Except Err (NDArr α)
   | [], cur => .ok cur
   | (i, ctr) :: rest, cur =>
-    match setOne patches cur i ctr offset oi dflt with
+    match setOne v patches cur i ctr offset oi dflt with
     | .error e => .error e
-    | .ok nxt => setLoop patches offset oi dflt rest nxt
+    | .ok nxt => setLoop v patches offset oi dflt rest nxt
 
 /-- `set_patches(patches, pixels, centres, offset, offset_index)` (returns the new pixel array) -/
-def setPatches {α : Type} (patches pix : NDArr α) (centres : List Pt) (offset : Int × Int) (oi : Nat)
+def setPatches {α : Type} (v : Variant) (patches pix : NDArr α) (centres : List Pt) (offset : Int × Int) (oi : Nat)
     (dflt : α) : Except Err (NDArr α) :=
   match patches.shape, pix.shape with
   | [n, _, _, _, _], [_, _, _] =>
-    setLoop patches offset oi dflt ((List.range n).zip centres) pix
+    setLoop v patches offset oi dflt ((List.range n).zip centres) pix
   | _, _ => .error .value
 
 /-! ### concrete samplers (library behaviour of `scipy.ndimage.map_coordinates`, used by the driver) -/
